@@ -4,6 +4,7 @@ import (
 	"context"
 	"errors"
 	"fmt"
+	"io"
 	"net/http"
 	"sort"
 	"strings"
@@ -200,6 +201,10 @@ func c02Case(run *ev.Run, srv *svc.Server, ic *c02Icept, cs *svc.ClientSet, kind
 	switch src {
 	case "plain":
 		herr = errors.New(text)
+		if rr.Intn(3) == 0 {
+			herr = fmt.Errorf("%s: %w", text, io.ErrUnexpectedEOF)
+			text = herr.Error()
+		}
 		wantCode = connect.CodeUnknown
 		meta = nil
 		k = 0
@@ -208,10 +213,15 @@ func c02Case(run *ev.Run, srv *svc.Server, ic *c02Icept, cs *svc.ClientSet, kind
 		if src == "wraps-ctx" {
 			// a coded error whose cause happens to be a context error (say, a
 			// backend call that timed out) keeps its own code and message
-			if rr.Intn(2) == 0 {
+			// (or io.EOF: a backend connection that closed; this is not the end of
+			// the request stream the handler may have seen earlier)
+			switch rr.Intn(3) {
+			case 0:
 				inner = fmt.Errorf("%s: %w", text, context.DeadlineExceeded)
-			} else {
+			case 1:
 				inner = fmt.Errorf("%s: %w", text, context.Canceled)
+			default:
+				inner = fmt.Errorf("%s: %w", text, io.EOF)
 			}
 			text = inner.Error()
 		}
